@@ -19,7 +19,7 @@ func init() {
 		Level: "other",
 		Explanation: "Decided (structural necessary conditions of 'exports parse back'): (R14.1) inside package rag an io.Writer handed to an export function only ever reaches encoding/json or encoding/csv encoders (or another export function held to the same rule): no hand-written serialisation of chunk data; (R14.2) every constant column name produced by collectCSVColumns has a value case in getColumnValue and is known to isStandardColumn, and metadata columns carry the meta_ prefix both where they are produced and where they are read; (R14.3) the column set is sorted before use (map-order rule of C03 on the export code); (R14.4) ChunkCollection.Filter is a pure forward selection that calls the predicate exactly once per chunk, and every FilterBy*/Search delegates to it; (R14.5) batch windows tile the input: the loop advances by the batch size and each window is chunks[i:min(i+size,len)]; one record is produced per chunk with the loop index as position; (R14.6) Exporter methods keep no state between calls. " +
 			"Not decided: field-by-field equality after re-parsing, number formatting, the vector-database record layouts.",
-		Rules: []func(*eng.Ctx){ruleExportNotTrimmed, ruleRowFieldsByColumnName, ruleNilListMeansAll, loopVarRule("R14.LV", "rag"), ruleWriterDiscipline, ruleColumnAgreement, ruleExportMapOrder, ruleCollectionFilter, ruleBatchPartition, ruleExporterStateless, ruleCSVNoCRLF, roleRule("R14.R", "rag"), ruleExportNoEmptyShortcut, ruleExportFieldCopy, ruleShortLoop, rulePageRangeOverlap, ruleExportTruncates, ruleSearchNormalisesBoth, ruleBatchDataOwn},
+		Rules: []func(*eng.Ctx){ruleElementTypeFilterEvaluated, ruleExportNotTrimmed, ruleRowFieldsByColumnName, ruleNilListMeansAll, loopVarRule("R14.LV", "rag"), ruleWriterDiscipline, ruleColumnAgreement, ruleExportMapOrder, ruleCollectionFilter, ruleBatchPartition, ruleExporterStateless, ruleCSVNoCRLF, roleRule("R14.R", "rag"), ruleExportNoEmptyShortcut, ruleExportFieldCopy, ruleShortLoop, rulePageRangeOverlap, ruleExportTruncates, ruleSearchNormalisesBoth, ruleBatchDataOwn},
 	})
 }
 
